@@ -104,7 +104,7 @@ def make_case(rng):
         extra = ' edge-type="%s"' % rng.choice([kind, {"h": "horizontal", "v": "vertical"}[kind]])
     off = None
     if kind == "corner" and rng.random() < 0.5:
-        off = rng.choice([("abs", F(2)), ("abs", F(5)), ("pct", F(25)), ("pct", F(75))])
+        off = rng.choice([("abs", F(2)), ("abs", F(5)), ("pct", F(25)), ("pct", F(75)), ("abs", -F(3)), ("abs", -F(3, 2))])
         extra = ' corner-offset="%s%s"' % (fmt(off[1]), "%" if off[0] == "pct" else "")
     unused = None
     if kind != "corner" and rng.random() < 0.2:
@@ -271,6 +271,9 @@ def check_case(ctx, case):
             viol("perpendicular", "corner-leaves-not-perpendicular", "first segment does not leave perpendicular to the start edge %s" % e1)
         elif e2 and not perpendicular(pts[-1], pts[-2], e2):
             viol("perpendicular", "corner-enters-not-perpendicular", "last segment does not enter perpendicular to the end edge %s" % e2)
+        # Not judged: on which side of the edge the first / last segment runs, and where corner-offset puts the corner. The
+        # statement fixes neither, and svgdx itself runs through a box when the nearest candidate edge faces away (tried as a
+        # check and withdrawn: 9% of the clean tree's corner connectors 'leave into the start box').
 
 
 def run_shard(ctx):
